@@ -117,6 +117,9 @@ pub fn tcp_options() -> impl Strategy<Value = Hex> {
         1 => any::<[u8; 8]>().prop_map(|t| { let mut v = vec![34u8, 10]; v.extend_from_slice(&t); v }),
         1 => any::<[u8; 16]>().prop_map(|t| { let mut v = vec![19u8, 18]; v.extend_from_slice(&t); v }),
         1 => (any::<u8>(), vec(any::<u8>(), 0..6)).prop_map(|(k, d)| { let mut v = vec![k.max(35), (2 + d.len()) as u8]; v.extend_from_slice(&d); v }),
+        // the well-known kinds with a length octet other than the one their RFC gives them (the
+        // peer controls it): MSS of 2 / 3 / 5 / 6 bytes, a 4-byte window scale, timestamps of 9 ...
+        2 => (prop::sample::select(vec![2u8, 2, 3, 4, 8]), 2u8..12, any::<[u8; 10]>()).prop_map(|(k, l, d)| { let mut v = vec![k, l]; v.extend_from_slice(&d[..(l as usize - 2)]); v }),
     ];
     vec(one, 1..6).prop_map(|os| {
         let mut v: Vec<u8> = os.into_iter().flatten().collect();
